@@ -154,7 +154,10 @@ def accepted_kinds(an, prog, T):
                 # does this arm reach an Ok aggregate?
                 r = b.reachable(tb)
                 oks = [1 for (bb, i, s) in block_aggs(b, r) if s["rv"]["variant"] == "Ok" and b.edge_dominates((blk, tb), bb)]
-                if oks and name:
+                # delegation to another conversion (`<T>::try_from(d).map_err(..)`, `d.try_into()..`)
+                dele = [1 for (cb, tt, cc) in b.calls() if cb in r and b.edge_dominates((blk, tb), cb) and cc is not None
+                        and cc.nsyn in ("std::convert::TryFrom::try_from", "std::convert::TryInto::try_into", "std::convert::From::from", "std::convert::Into::into")]
+                if (oks or dele) and name:
                     fv.add(name[0])
             break
     dn = set()
